@@ -8,14 +8,14 @@ import (
 // New returns a new Topic
 func New[T any]() *Topic[T] {
 	return &Topic[T]{
-		subscribers: make(map[subscriptionID]chan<- T),
+		subscribers: make(map[subscriptionID]subscriber[T]),
 	}
 }
 
 // NewWithInitial returns a new Topic that is pre-seeded with a last value.
 func NewWithInitial[T any](v T) *Topic[T] {
 	return &Topic[T]{
-		subscribers: make(map[subscriptionID]chan<- T),
+		subscribers: make(map[subscriptionID]subscriber[T]),
 		last:        v,
 		hasLast:     true,
 	}
@@ -24,10 +24,16 @@ func NewWithInitial[T any](v T) *Topic[T] {
 // Topic is a single topic that subscribers can Subscribe() to
 type Topic[T any] struct {
 	mu          sync.Mutex
-	subscribers map[subscriptionID]chan<- T
+	subscribers map[subscriptionID]subscriber[T]
 	lastID      subscriptionID
 	last        T
 	hasLast     bool
+}
+
+// subscriber is the Topic's view of a Subscription
+type subscriber[T any] struct {
+	ch      chan<- T
+	closing <-chan struct{} // closed when the Subscription starts to Close
 }
 
 // Publish publishes a new value to all subscribers
@@ -37,8 +43,13 @@ func (t *Topic[T]) Publish(v T) {
 
 	t.last = v
 	t.hasLast = true
-	for _, ch := range t.subscribers {
-		ch <- v // blocking
+	for _, sub := range t.subscribers {
+		select {
+		case sub.ch <- v: // blocking
+		case <-sub.closing:
+			// The subscriber is closing and waits for our mutex in
+			// unsubscribeID: do not wait for it to receive.
+		}
 	}
 }
 
@@ -73,7 +84,8 @@ func (t *Topic[T]) Subscribe(sendLast bool) *Subscription[T] {
 	t.lastID++
 	id := t.lastID
 
-	t.subscribers[id] = ch
+	closing := make(chan struct{})
+	t.subscribers[id] = subscriber[T]{ch: ch, closing: closing}
 
 	if sendLast && t.hasLast {
 		// Will not block, because the channel is buffered and nothing
@@ -82,9 +94,10 @@ func (t *Topic[T]) Subscribe(sendLast bool) *Subscription[T] {
 	}
 
 	sub := &Subscription[T]{
-		id:    id,
-		topic: t,
-		ch:    ch,
+		id:      id,
+		topic:   t,
+		ch:      ch,
+		closing: closing,
 	}
 	return sub
 }
@@ -112,10 +125,10 @@ func (t *Topic[T]) unsubscribeID(id subscriptionID) {
 	t.mu.Lock()
 	defer t.mu.Unlock()
 
-	ch, exists := t.subscribers[id]
+	sub, exists := t.subscribers[id]
 	if !exists {
 		return
 	}
-	close(ch)
+	close(sub.ch)
 	delete(t.subscribers, id)
 }
